@@ -4,7 +4,14 @@ proof side : lean/Heph/Props/C01.lean — `check_sound : checkProgram lt p = .ok
              (the declarative judgement of lean/Heph/Spec/Typing.lean over `Asg`), `isSubD_sound`, the model of
              the fold of `gen_conditional` with `condType_upper_partial` / `condType_counterexample` /
              `condTypeFixed_upper`, the model of the filter of `gen_variable` with `genVariable_sound` /
-             `genVariable_assignable` / `genVariable_refines_*`.
+             `genVariable_assignable` / `genVariable_refines_*`; further decision points of the generator
+             (lean/Heph/Model/GenFuncRef, GenNew, GenMatch, GenSig.lean): `sigtypeCompatible_sound/assignable`,
+             `funcCallRef_sound/candidates/refines_*`, `funcRef_sound`, `subclass_sound/prefers_own/refines_*`,
+             `newFromClass_expected`, `genNew_new`, `genNew_map_is_instantiation`, `genNew_expected_is_sink`,
+             `matchingClassDecls_sound`, `firstCompatible_sound/none`, `matchedOK_sound`, `overrideSig_arity`,
+             `overrideComponent_spec/plain`, `restrictMap_spec`, `callArgsExpected_plain/sound`; and
+             lean/Heph/Props/C01Gen.lean (`genNew_expected_substS`, world of C07's specification; built and
+             audited by this check through `audit_extra`).
 tie to code: every program the real generator produces for (language x switch setting x seed x max_depth) is
              exported by value and sent to the verified checker (op `check.wt`).  The quantifier over seeds is
              covered only on the explored programs.  A rejected program is a candidate violation: replay =
@@ -16,6 +23,22 @@ tie to code: every program the real generator produces for (language x switch se
              type, flags, outcome; refinement of `genVariableCandidates`, a differing call is judged by the
              specification-side decider `check.subd`).  The witness of `condType_counterexample` is replayed on the
              real `gen_conditional` (`fold_witness`).
+             The other decision points (`check_genpoints`; recorded by c01_plugin with per-program caps GP_LIMITS,
+             inputs / random draws / outcome by value, one driver request per program and kind):
+             exact comparison  - `_is_sigtype_compatible` (check.sigcompat), `_get_matching_class_decls` given the
+                                 unifier maps (check.classdecls), `_gen_matching_class` (check.firstcompat), `gen_new`:
+                                 node kind, node type and the expected types handed to `generate_expr` given the class
+                                 drawn and the random instantiations (check.gennew), `_gen_func_from_existing`: the
+                                 signature handed to `gen_func_decl` (check.overridesig), `_gen_func_call`: the expected
+                                 argument types under the final `params_map` (check.callargs);
+             refinement        - `_gen_func_call_ref` (check.funcallref), `_gen_func_ref` (check.funcref),
+                                 `_get_subclass` (check.subclass), `_get_matching_class` (its draw is one of the class
+                                 declarations `_get_matching_class_decls` returned);
+             returned triples  - every (attribute, maps) returned by `_get_matching_objects`,
+                                 `_get_matching_function_declarations`, `_get_matching_class` satisfies `matchedOK`
+                                 (check.sigcompat) under the maps as returned, or, when a random use-site-variance
+                                 instantiation binds a type parameter to a projection, the checker's read rule
+                                 (check.readfits = `readType` + specification-side decider); neither -> failing input.
 budget     : one program costs 0.2-60 CPU seconds (deep copies in the generator); programs are capped by CPU time
              (not wall-clock time) so that the set of cut-off programs does not depend on the load of the machine.
 """
@@ -254,6 +277,11 @@ def check_programs(run, specs, label, mutate_every=0):
             run.tally("cutoffs", sp["lang"])
             continue
         if "exception" in r:      # belongs to C18; counted here
+            frames = [l for l in r["exception"].get("traceback", "").splitlines() if l.lstrip().startswith('File "')]
+            if frames and ("c01_plugin.py" in frames[-1] or os.path.join("harness", "export") in frames[-1]):
+                # raised by the recording wrapper itself, not by the generator: machinery error, never data
+                raise common.HarnessError("c01_plugin raised inside a generator run %s: %s: %s" % (
+                    replay_key(sp), r["exception"]["type"], r["exception"]["msg"][:200]))
             run.tally("generator_exceptions", "%s:%s" % (sp["lang"], r["exception"]["type"]))
             continue
         exp = r["stages"]["gen"]["export"]
@@ -266,6 +294,7 @@ def check_programs(run, specs, label, mutate_every=0):
     plouts = [(sp, r.get("plugins", {}).get("c01_plugin")) for sp, key, r in metas]
     notupper = check_folds(run, plouts)
     check_genvar(run, plouts)
+    check_genpoints(run, plouts)
     run.log("%s: %d programs judged by check.wt in %.0fs" % (label, len(rqs), time.time() - t0))
     javac_cache = {}
     accepted = []
@@ -372,6 +401,249 @@ def check_genvar(run, plugin_outputs):
         else:
             run.violation(dict(rp, kind="broken-correspondence", judged_assignable=judged),
                           signature="gen_variable:model-differs", no_input=True)
+
+
+# ---------------------------------------------------------------------------------------------
+# decision points of the generator recorded by c01_plugin ("gp"): one driver request per program and kind
+def _gp_batches(plugin_outputs, kind, op, extra=None):
+    rqs, owner = [], []
+    for sp, pl in plugin_outputs:
+        if not pl or "error" in pl:
+            continue
+        calls = pl.get("gp", {}).get(kind, [])
+        if calls:
+            rq = {"op": op, "tt": pl["gp_tt"], "calls": calls}
+            if extra is not None:
+                rq["extra"] = extra
+            rqs.append(rq)
+            owner.append((sp, pl, calls))
+    ans = run_driver_sharded(rqs, shards=12) if rqs else []
+    for (sp, pl, calls), a in zip(owner, ans):
+        if "error" in a:
+            raise common.HarnessError("driver error on %s of %s: %s" % (op, replay_key(sp), a["error"][:300]))
+        if len(a["r"]) != len(calls):
+            raise common.HarnessError("%s: %d answers for %d calls" % (op, len(a["r"]), len(calls)))
+        for c, r in zip(calls, a["r"]):
+            yield sp, pl, c, r
+
+
+def _subd(sp, tt, s, t):
+    """the specification-side decider on two entries of a recorded type table"""
+    base = add_bt({"lang": sp["lang"], "tt": tt, "decls": []})
+    return common.run_driver([dict(base, op="check.subd", s=s, t=t)])[0].get("r")
+
+
+class _Reporter:
+    """at most `cap` reports per signature and check run"""
+
+    def __init__(self, run, cap=2):
+        self.run, self.cap, self.n = run, cap, {}
+
+    def __call__(self, obj, signature, no_input):
+        self.n[signature] = self.n.get(signature, 0) + 1
+        if self.n[signature] <= self.cap:
+            self.run.violation(obj, signature=signature, no_input=no_input)
+
+
+def check_genpoints(run, plugin_outputs):
+    """recorded calls of the generator's decision points against the models of lean/Heph/Model/Gen*.lean"""
+    extra = [list(p) for p in export.extra_assignable_table()]
+    report = _Reporter(run)
+    for sp, pl in plugin_outputs:
+        if pl and "error" not in pl:
+            for k, n in pl.get("gp_n", {}).items():
+                run.cov.setdefault("decision_point_calls_total", {})
+                run.cov["decision_point_calls_total"][k] = run.cov["decision_point_calls_total"].get(k, 0) + n
+    # 1a. `_is_sigtype_compatible`: exact comparison of the answer
+    for sp, pl, c, r in _gp_batches(plugin_outputs, "sig", "check.sigcompat", extra):
+        same = r == c["out"]
+        run.tally("is_sigtype_compatible_calls", "%s:%s:%s:%s" % (
+            "signature" if c["sig"] else ("subtype" if c["sub"] else "exact"), c["mode"], c["out"],
+            "agree" if same else "DIFFER"))
+        run.cov["traces_validated_against_impl"] += 1
+        if not same:
+            rp = {"replay": replay_key(sp), "call": c, "model": r, "tt": pl["gp_tt"],
+                  "correspondence": "_is_sigtype_compatible vs sigtypeCompatible"}
+            report(dict(rp, kind="broken-correspondence"), "is_sigtype_compatible:model-differs", True)
+    # 1b. `_gen_func_call_ref`: the call refines the candidate list
+    for sp, pl, c, r in _gp_batches(plugin_outputs, "fcr", "check.funcallref", extra):
+        run.tally("gen_func_call_ref_calls", "%s:%s%s:%s" % (
+            r["stage"] if c["out"] is not None else "none:" + r["stage"], "subtype" if c["sub"] else "exact",
+            ":java-lambda" if c["jl"] else "", "refines" if r["ok"] else "DIFFERS"))
+        run.cov["traces_validated_against_impl"] += 1
+        if not r["ok"]:
+            rp = {"replay": replay_key(sp), "call": c, "model": r, "tt": pl["gp_tt"],
+                  "correspondence": "_gen_func_call_ref vs funcCallRefCandidates"}
+            judged = None
+            if c["out"] is not None and c["out"]["norecv"]:
+                v = [x for x in c["vars"] if x["name"] == c["out"]["name"]]
+                e = pl["gp_tt"][v[0]["t"]] if v else None
+                if e is not None and e["k"] == "p" and e["args"]:
+                    judged = _subd(sp, pl["gp_tt"], e["args"][-1], c["etype"])
+            if judged is False:
+                report(dict(rp, kind="failing-input", what="_gen_func_call_ref calls a variable whose return type is "
+                            "not assignable to the expected type (specification-side decider)"),
+                       "gen_func_call_ref:return-type-not-assignable", False)
+            else:
+                report(dict(rp, kind="broken-correspondence", judged_assignable=judged),
+                       "gen_func_call_ref:model-differs", True)
+    # 1c. `_gen_func_ref`: the reference is to one of the matching declarations, at the expected signature
+    for sp, pl, c, r in _gp_batches(plugin_outputs, "fref", "check.funcref"):
+        run.tally("gen_func_ref_calls", "%s:%s:%s" % (
+            "from-scope" if r["cands"] else "receiver-created", "refines" if r["ok"] else "DIFFERS",
+            "declarations-compatible" if r["compat"] else "DECLARATION-NOT-COMPATIBLE"))
+        run.cov["traces_validated_against_impl"] += 1
+        if not (r["ok"] and r["compat"]):
+            rp = {"replay": replay_key(sp), "call": c, "model": r, "tt": pl["gp_tt"],
+                  "correspondence": "_gen_func_ref vs funcRefCandidates / sigtypeCompatible"}
+            report(dict(rp, kind="broken-correspondence"), "gen_func_ref:model-differs", True)
+    check_gennew(run, plugin_outputs, report)
+    check_matching(run, plugin_outputs, report, extra)
+    check_signatures(run, plugin_outputs, report)
+
+
+def check_gennew(run, plugin_outputs, report):
+    """2. `_get_subclass` (the class drawn is one of the model's candidates) and `gen_new` (given the class and the
+    random instantiations, the kind of node returned, its type and the expected types handed to `generate_expr`
+    for the constructor arguments are the model's plan)"""
+    for sp, pl, c, r in _gp_batches(plugin_outputs, "subclass", "check.subclass"):
+        e = pl["gp_tt"][c["etype"]]
+        run.tally("get_subclass_calls", "%s:%s:%s:%s" % (
+            "none" if c["out"] is None else ("own-class" if c["out"] == c["ename"] else "other-class"),
+            e["k"], "subtype" if c["sub"] else "exact", "refines" if r["ok"] else "DIFFERS"))
+        run.cov["traces_validated_against_impl"] += 1
+        if not r["ok"]:
+            rp = {"replay": replay_key(sp), "call": c, "model": r, "tt": pl["gp_tt"],
+                  "correspondence": "_get_subclass vs subclassCandidates"}
+            judged = None
+            if c["out"] is not None:
+                cl = [x for x in c["classes"] if x["name"] == c["out"]]
+                if cl and not cl[0]["parameterized"]:
+                    judged = _subd(sp, pl["gp_tt"], cl[0]["t"], c["etype"])
+            if judged is False:
+                report(dict(rp, kind="failing-input", what="_get_subclass returned a class whose type is not "
+                            "assignable to the expected type (specification-side decider)"),
+                       "get_subclass:class-not-assignable", False)
+            else:
+                report(dict(rp, kind="broken-correspondence", judged_assignable=judged),
+                       "get_subclass:model-differs", True)
+    for sp, pl, c, r in _gp_batches(plugin_outputs, "new", "check.gennew"):
+        kind = c["out"]["kind"]
+        if not c["reached_subclass"] and r["plan"] != "funcRefOrLambda":
+            # the SAM-coercion branch (random) returned before `_get_subclass`: not a branch of the plan
+            run.tally("gen_new_calls", "sam-coercion:%s:%s" % (kind, "flag-set" if c["sam"] else "FLAG-NOT-SET"))
+            if not c["sam"]:
+                report({"kind": "broken-correspondence", "replay": replay_key(sp), "call": c, "model": r,
+                        "tt": pl["gp_tt"], "correspondence": "gen_new vs genNewPlan (branch before _get_subclass)"},
+                       "gen_new:model-differs", True)
+            continue
+        generic = bool(c["cls"] and c["cls"]["tparams"])
+        run.tally("gen_new_calls", "%s:%s%s%s:%s" % (r["plan"], kind, ":generic-class" if generic else "",
+                                                      ":%d-random-instantiations" % len(c["insts"]) if c["insts"] else "",
+                                                      "agree" if r["ok"] else "DIFFER"))
+        run.cov["traces_validated_against_impl"] += 1
+        if not r["ok"]:
+            report({"kind": "broken-correspondence", "replay": replay_key(sp), "call": c, "model": r,
+                    "tt": pl["gp_tt"], "correspondence": "gen_new vs genNewPlan"}, "gen_new:model-differs", True)
+
+
+def check_matching(run, plugin_outputs, report, extra):
+    """3. the matching family: `_get_matching_class_decls` exactly (given the unifier maps), the draw of
+    `_get_matching_class` among them, the first fitting attribute of `_gen_matching_class`, and for every
+    (attribute, maps) RETURNED by `_get_matching_objects`, `_get_matching_function_declarations`,
+    `_get_matching_class` the condition the callers rely on (`matchedOK` = the model of the code's own
+    `_is_sigtype_compatible`, under the maps as returned, after the random instantiations)"""
+    for sp, pl, c, r in _gp_batches(plugin_outputs, "mcd", "check.classdecls", extra):
+        run.tally("get_matching_class_decls_calls", "%s:%s:%s:%s" % (
+            c["attr_name"], "signature" if c["sig"] else ("subtype" if c["sub"] else "exact"),
+            "some" if c["out"] else "empty", "agree" if r["ok"] else "DIFFER"))
+        run.cov["traces_validated_against_impl"] += 1
+        if not r["ok"]:
+            report({"kind": "broken-correspondence", "replay": replay_key(sp), "call": c, "model": r,
+                    "tt": pl["gp_tt"], "correspondence": "_get_matching_class_decls vs matchingClassDecls"},
+                   "get_matching_class_decls:model-differs", True)
+    for sp, pl in plugin_outputs:
+        if not pl or "error" in pl:
+            continue
+        for c in pl.get("gp", {}).get("mcls", []):
+            ok = (c["out"] is None and not c["cands"]) or (c["out"] is not None and c["out"] in c["cands"])
+            run.tally("get_matching_class_calls", "%s:%s:%s" % (
+                c["attr_name"], "none" if c["out"] is None else "drawn", "refines" if ok else "DIFFERS"))
+            if not ok:
+                report({"kind": "broken-correspondence", "replay": replay_key(sp), "call": c,
+                        "correspondence": "_get_matching_class draws from _get_matching_class_decls"},
+                       "get_matching_class:model-differs", True)
+    for sp, pl, c, r in _gp_batches(plugin_outputs, "gmc", "check.firstcompat"):
+        run.tally("gen_matching_class_calls", "%s:%s:%s" % (
+            c["attr_name"], "signature" if c["sig"] else "type", "agree" if r["ok"] else "DIFFER"))
+        run.cov["traces_validated_against_impl"] += 1
+        if not r["ok"]:
+            report({"kind": "broken-correspondence", "replay": replay_key(sp), "call": c, "model": r,
+                    "tt": pl["gp_tt"], "correspondence": "_gen_matching_class vs firstCompatible"},
+                   "gen_matching_class:model-differs", True)
+    for sp, pl, c, r in _gp_batches(plugin_outputs, "post", "check.sigcompat", extra):
+        run.tally("returned_attribute_fits", "%s:%s:%s" % (
+            c["src"], "signature" if c["sig"] else ("subtype" if c["sub"] else "exact"),
+            "fits" if r is True else "not-under-substitute_type(%s)" % r))
+        run.cov["traces_validated_against_impl"] += 1
+        if r is not True:
+            # `_get_matching_class` instantiates the receiver class at random, with use-site variance: the returned
+            # map may bind a type parameter to a projection (`out Byte`), and then the attribute's type under
+            # `substitute_type` is a projection, which `_is_sigtype_compatible` does not accept although READING the
+            # attribute through the receiver yields the projection's upper bound.  Such a triple is judged by the
+            # verified checker's read rule (`readType`, rule 2 of the calibration) and the specification-side decider.
+            binds_projection = any(pl["gp_tt"][v]["k"] == "w" for k, v in c["m"])
+            fits = None
+            if binds_projection and not c["sig"] and c["mode"] == "whole":
+                base = add_bt({"lang": sp["lang"], "tt": pl["gp_tt"], "decls": []})
+                a = common.run_driver([dict(base, op="check.readfits",
+                                            calls=[{"attr": c["attr"], "etype": c["etype"], "m": c["m"]}])])[0]
+                if "error" in a:
+                    raise common.HarnessError("driver error on check.readfits: %s" % a["error"][:300])
+                fits = a["r"][0]
+            run.tally("returned_attribute_fits", "%s:through-projection-read:%s" % (
+                c["src"], {True: "fits", False: "DOES-NOT-FIT", None: "not-applicable"}[fits]))
+            if fits is True:
+                continue
+            rp = {"replay": replay_key(sp), "call": c, "model": r, "tt": pl["gp_tt"], "read_rule": fits,
+                  "what": "%s returned an attribute whose type under the returned maps neither passes "
+                          "_is_sigtype_compatible nor, read through a projection, is assignable to the expected "
+                          "type" % c["src"]}
+            report(dict(rp, kind="failing-input"), "matching:returned-attribute-does-not-fit:" + c["src"], False)
+
+
+def check_signatures(run, plugin_outputs, report):
+    """4. `_gen_func_from_existing`: the parameter and return types handed to `gen_func_decl` for an overriding
+    function are the model's `overrideSig` of the overridden signature, the superclass map and the (random) renaming
+    of the function's type parameters; `_gen_func_call`: the expected types of the arguments are the callee's
+    parameter types under the final `params_map` (`callArgsExpected`)"""
+    for sp, pl, c, r in _gp_batches(plugin_outputs, "ovr", "check.overridesig"):
+        run.tally("gen_func_from_existing_calls", "%s%s:%s%s" % (
+            "generic-function" if c["generic"] else "plain", ":superclass-map" if c["m"] else "",
+            "agree" if r["ok"] else "DIFFER", "" if r["arity"] else ":ARITY"))
+        run.cov["traces_validated_against_impl"] += 1
+        if not r["ok"]:
+            report({"kind": "broken-correspondence", "replay": replay_key(sp), "call": c, "model": r,
+                    "tt": pl["gp_tt"], "correspondence": "_gen_func_from_existing vs overrideSig"},
+                   "gen_func_from_existing:model-differs", True)
+    for sp, pl in plugin_outputs:
+        if not pl or "error" in pl:
+            continue
+        for c in pl.get("gp", {}).get("call", []):
+            nv = [p for p in c["params"] if p["vararg"]]
+            # the random number of vararg arguments, recovered from the number of recorded expected types
+            c["counts"] = [len(c["args"]) - (len(c["params"]) - 1)] if len(nv) == 1 else []
+            if len(nv) > 1 or (c["counts"] and not 0 <= c["counts"][0] <= 3):
+                c["counts"] = [0] * len(nv)
+    for sp, pl, c, r in _gp_batches(plugin_outputs, "call", "check.callargs"):
+        run.tally("gen_func_call_argument_types", "%s%s%s:%s" % (
+            "callee-created" if c["created"] else "callee-in-scope", ":vararg" if c["counts"] else "",
+            ":map" if c["m"] else "", "agree" if r["ok"] else "DIFFER"))
+        run.cov["traces_validated_against_impl"] += 1
+        if not r["ok"]:
+            report({"kind": "broken-correspondence", "replay": replay_key(sp), "call": c, "model": r,
+                    "tt": pl["gp_tt"], "correspondence": "_gen_func_call argument types vs callArgsExpected"},
+                   "gen_func_call:model-differs", True)
 
 
 def check_folds(run, plugin_outputs):
@@ -484,8 +756,33 @@ def fold_witness(run):
                        "replay": {"witness": "fold", "lang": "kotlin"}}, signature="condType:witness-other")
 
 
+def audit_extra(run, prop):
+    """axiom audit of a second theorem file of this property (Props/C01Gen.lean lives in the world of C07's
+    specification, which cannot be imported together with C06's): same rule as common.Run.build_and_audit"""
+    names, res, missing, out = common.audit(prop)
+    good = 0
+    for n in names:
+        ax = res.get(n.split(".")[-1])
+        if ax is None:
+            run.broken.append({"obligation": "audit %s.%s" % (prop, n), "detail": "no #print axioms output"})
+        elif set(ax) - common.ALLOWED_AXIOMS:
+            run.broken.append({"obligation": "audit %s.%s" % (prop, n), "detail": "axioms " + ",".join(ax)})
+        else:
+            good += 1
+    if not names:
+        run.broken.append({"obligation": "audit " + prop, "detail": "no theorem found"})
+    run.cov["obligations"] += len(names)
+    run.cov["discharged"] += good
+    run.cov.setdefault("theorems", {}).update({"%s.%s" % (prop, n): res.get(n.split(".")[-1]) for n in names})
+    run.cov["checker_cmd"] += " && lake build Heph.Props.%s && lake env lean Audit/%s.lean" % (prop, prop)
+    run.log("%s: theorems %d/%d audited" % (prop, good, len(names)))
+    return good == len(names) and bool(names)
+
+
 def check(run):
-    proofs_ok = run.build_and_audit()
+    proofs_ok = run.build_and_audit(extra_targets=["Heph.Props.C01Gen"])
+    if run.cov.get("lake_build_ok"):
+        proofs_ok = audit_extra(run, "C01Gen") and proofs_ok
     quick = run.tier == "quick"
     base = run.rng.randrange(0, 10 ** 6) if run.seed else 0
     specs = []
@@ -509,7 +806,8 @@ def check(run):
                        "max_depth), exported by value and judged by the verified checker (check.wt); non-trivial = more "
                        "than 50 AST nodes; distinct by replay tuple; plus ill-typed mutants of accepted programs "
                        "(negative controls), the recorded folds of gen_conditional against the models condType / "
-                       "condTypeFixed and the recorded calls of gen_variable against genVariableCandidates")
+                       "condTypeFixed, the recorded calls of gen_variable against genVariableCandidates and the recorded "
+                       "calls of ten further decision points (check_genpoints) against the models of Model/Gen*.lean")
     # corpus first
     cdir = os.path.join(common.VERIF, "corpus")
     corpus = []
